@@ -5,7 +5,7 @@
 set -u
 ID=$1; shift
 PKGS="$@"
-SEED=/verif/seeded/$ID
+SEED=${SEEDROOT:-/verif/seeded}/$ID
 WT=/tmp/confirm-$ID
 export GOFLAGS=-mod=mod GOPROXY=off GOSUMDB=off GOTOOLCHAIN=local
 LOG=$SEED/confirm.log
